@@ -2,115 +2,113 @@
   Irc.InvProofs.ModesLemmas — helper lemmas for Irc.InvProofs.Modes (part D of the
   invariant-preservation proof): map facts, three "master" lemmas (replace one user record /
   replace one channel record / replace one connection record) and the frame lemma
-  `InvCore.of_fields`.
+  `invCore_of_fields`.  Everything here lives in `namespace Irc.Modes`.
 -/
 import Irc.InvProofs.Defs
 
-namespace Irc
+namespace Irc.Modes
 
 /-! ### more map facts -/
-namespace Map
 variable {α : Type}
 
-theorem insert_eq_modify (k : Str) (v : α) (m : Map α) (h : contains k m = true) :
-    insert k v m = modify k (fun _ => v) m := by
+theorem Map.insert_eq_modify (k : Str) (v : α) (m : Map α) (h : Map.contains k m = true) :
+    Map.insert k v m = Map.modify k (fun _ => v) m := by
   induction m with
-  | nil => simp [contains, lookup] at h
+  | nil => simp [Map.contains, Map.lookup] at h
   | cons p m ih =>
     obtain ⟨k', v'⟩ := p
     by_cases hk : k' = k
-    · subst hk; simp [insert, modify]
-    · have : contains k m = true := by simpa [contains, lookup, hk] using h
-      simp [insert, modify, hk, ih this]
+    · subst hk; simp [Map.insert, Map.modify]
+    · have : Map.contains k m = true := by simpa [Map.contains, Map.lookup, hk] using h
+      simp [Map.insert, Map.modify, hk, ih this]
 
-theorem keys_insert_of_contains (k : Str) (v : α) (m : Map α) (h : contains k m = true) :
-    keys (insert k v m) = keys m := by
-  rw [insert_eq_modify k v m h, keys_modify]
+theorem Map.keys_insert_of_contains (k : Str) (v : α) (m : Map α) (h : Map.contains k m = true) :
+    Map.keys (Map.insert k v m) = Map.keys m := by
+  rw [Map.insert_eq_modify k v m h, Map.keys_modify]
 
-theorem contains_eq_of_keys_eq {β : Type} (k : Str) (m : Map α) (m' : Map β) (h : keys m = keys m') :
-    contains k m = contains k m' := by
-  have h1 := mem_keys_iff k m
-  have h2 := mem_keys_iff k m'
+theorem Map.contains_eq_of_keys_eq {β : Type} (k : Str) (m : Map α) (m' : Map β) (h : Map.keys m = Map.keys m') :
+    Map.contains k m = Map.contains k m' := by
+  have h1 := Map.mem_keys_iff k m
+  have h2 := Map.mem_keys_iff k m'
   rw [h] at h1
-  cases hc : contains k m <;> cases hc' : contains k m' <;> try rfl
-  · have := (contains_iff k m').mp hc'
-    have := (contains_iff k m).mpr (h1.mp (h2.mpr this))
+  cases hc : Map.contains k m <;> cases hc' : Map.contains k m' <;> try rfl
+  · have := (Map.contains_iff k m').mp hc'
+    have := (Map.contains_iff k m).mpr (h1.mp (h2.mpr this))
     simp [hc] at this
-  · have := (contains_iff k m).mp hc
-    have := (contains_iff k m').mpr (h2.mp (h1.mpr this))
+  · have := (Map.contains_iff k m).mp hc
+    have := (Map.contains_iff k m').mpr (h2.mp (h1.mpr this))
     simp [hc'] at this
 
-theorem contains_modify (k k' : Str) (f : α → α) (m : Map α) :
-    contains k (modify k' f m) = contains k m :=
-  contains_eq_of_keys_eq k _ _ (keys_modify k' f m)
+theorem Map.contains_modify (k k' : Str) (f : α → α) (m : Map α) :
+    Map.contains k (Map.modify k' f m) = Map.contains k m :=
+  Map.contains_eq_of_keys_eq k _ _ (Map.keys_modify k' f m)
 
-theorem modify_congr_of_lookup (k : Str) (f : α → α) (m : Map α) (u : α) (h : lookup k m = some u) :
-    modify k f m = modify k (fun _ => f u) m := by
+theorem Map.modify_congr_of_lookup (k : Str) (f : α → α) (m : Map α) (u : α) (h : Map.lookup k m = some u) :
+    Map.modify k f m = Map.modify k (fun _ => f u) m := by
   induction m with
   | nil => rfl
   | cons p m ih =>
     obtain ⟨k', v'⟩ := p
     by_cases hk : k' = k
     · subst hk
-      have : v' = u := by simpa [lookup] using h
+      have : v' = u := by simpa [Map.lookup] using h
       subst this
-      simp [modify]
-    · have hl : lookup k m = some u := by simpa [lookup, hk] using h
-      simp [modify, hk, ih hl]
+      simp [Map.modify]
+    · have hl : Map.lookup k m = some u := by simpa [Map.lookup, hk] using h
+      simp [Map.modify, hk, ih hl]
 
-theorem length_modify (k : Str) (f : α → α) (m : Map α) : (modify k f m).length = m.length := by
-  have := congrArg List.length (keys_modify k f m)
-  simpa [keys] using this
+theorem Map.length_modify (k : Str) (f : α → α) (m : Map α) : (Map.modify k f m).length = m.length := by
+  have := congrArg List.length (Map.keys_modify k f m)
+  simpa [Map.keys] using this
 
-theorem eq_nil_of_keys_eq {β : Type} (m : Map α) (m' : Map β) (h : keys m = keys m') (h' : m = []) :
+theorem Map.eq_nil_of_keys_eq {β : Type} (m : Map α) (m' : Map β) (h : Map.keys m = Map.keys m') (h' : m = []) :
     m' = [] := by
   subst h'
   cases m' with
   | nil => rfl
-  | cons p m' => simp [keys] at h
+  | cons p m' => simp [Map.keys] at h
 
-theorem contains_of_lookup {k : Str} {m : Map α} {v : α} (h : lookup k m = some v) :
-    contains k m = true := (contains_iff k m).mpr ⟨v, h⟩
+theorem Map.contains_of_lookup {k : Str} {m : Map α} {v : α} (h : Map.lookup k m = some v) :
+    Map.contains k m = true := (Map.contains_iff k m).mpr ⟨v, h⟩
 
 /-- counting the entries satisfying `P` after replacing the value at `k` -/
-theorem filter_modify_length (P : α → Bool) (k : Str) (f : α → α) (m : Map α) (u : α)
-    (h : lookup k m = some u) :
-    ((modify k f m).filter (fun p => P p.2)).length + (P u).toNat =
+theorem Map.filter_modify_length (P : α → Bool) (k : Str) (f : α → α) (m : Map α) (u : α)
+    (h : Map.lookup k m = some u) :
+    ((Map.modify k f m).filter (fun p => P p.2)).length + (P u).toNat =
       (m.filter (fun p => P p.2)).length + (P (f u)).toNat := by
   induction m with
-  | nil => simp [lookup] at h
+  | nil => simp [Map.lookup] at h
   | cons p m ih =>
     obtain ⟨k', v'⟩ := p
     by_cases hk : k' = k
     · subst hk
-      have : v' = u := by simpa [lookup] using h
+      have : v' = u := by simpa [Map.lookup] using h
       subst this
-      simp only [modify, ↓reduceIte, List.filter_cons]
+      simp only [Map.modify, ↓reduceIte, List.filter_cons]
       cases h1 : P v' <;> cases h2 : P (f v') <;> simp
-    · have hl : lookup k m = some u := by simpa [lookup, hk] using h
+    · have hl : Map.lookup k m = some u := by simpa [Map.lookup, hk] using h
       have := ih hl
-      simp only [modify, hk, ↓reduceIte, List.filter_cons]
+      simp only [Map.modify, hk, ↓reduceIte, List.filter_cons]
       cases h1 : P v' <;> simp <;> omega
 
-theorem filter_pos_of_lookup (P : α → Bool) (k : Str) (m : Map α) (u : α)
-    (h : lookup k m = some u) (hp : P u = true) : 0 < (m.filter (fun p => P p.2)).length := by
+theorem Map.filter_pos_of_lookup (P : α → Bool) (k : Str) (m : Map α) (u : α)
+    (h : Map.lookup k m = some u) (hp : P u = true) : 0 < (m.filter (fun p => P p.2)).length := by
   induction m with
-  | nil => simp [lookup] at h
+  | nil => simp [Map.lookup] at h
   | cons p m ih =>
     obtain ⟨k', v'⟩ := p
     by_cases hk : k' = k
     · subst hk
-      have : v' = u := by simpa [lookup] using h
+      have : v' = u := by simpa [Map.lookup] using h
       subst this
       simp [hp]
-    · have hl : lookup k m = some u := by simpa [lookup, hk] using h
+    · have hl : Map.lookup k m = some u := by simpa [Map.lookup, hk] using h
       have := ih hl
       simp only [List.filter_cons]
       split
       · simp
       · exact this
 
-end Map
 
 /-! ### connections -/
 
@@ -143,7 +141,7 @@ theorem sender_user {x : Ctx} {c : Nat} (h : InvCore x.w) (hl : Live x.w c)
 
 /-! ### frame: `InvCore` only reads nine fields -/
 
-theorem InvCore.of_fields {w w' : World} (h : InvCore w)
+theorem invCore_of_fields {w w' : World} (h : InvCore w)
     (hp : w'.panicked = w.panicked) (hu : w'.users = w.users) (hc : w'.channels = w.channels)
     (hcn : w'.conns = w.conns) (hi : w'.invisibleCount = w.invisibleCount)
     (ho : w'.operatorsCount = w.operatorsCount) (hw : w'.wallops = w.wallops)
@@ -151,7 +149,7 @@ theorem InvCore.of_fields {w w' : World} (h : InvCore w)
   obtain ⟨a1, a2, a3, a4, a5, a5', a6, a7, a8, a9, a10, a11, a12, a13, a14, a15, a16, a17, a18⟩ := h
   constructor <;> simp only [hp, hu, hc, hcn, hi, ho, hw, hm, hs] <;> assumption
 
-theorem SameConnIds.of_conns {w w' : World} (h : w'.conns = w.conns) : SameConnIds w w' := by
+theorem sameConnIds_of_conns {w w' : World} (h : w'.conns = w.conns) : SameConnIds w w' := by
   unfold SameConnIds; rw [h]
 
 /-- a handler result whose world is the old one -/
@@ -261,7 +259,7 @@ theorem invCore_user_modify {w w' : World} (h : InvCore w) {n : Str} {u : User}
     (hm : w'.maxUsers = w.maxUsers) (hs : w'.connsCount = w.connsCount)
     (hi : w'.invisibleCount = w.invisibleCount) (ho : w'.operatorsCount = w.operatorsCount)
     (hw : w'.wallops = w.wallops) : InvCore w' ∧ SameConnIds w w' := by
-  refine ⟨?_, SameConnIds.of_conns hcn⟩
+  refine ⟨?_, sameConnIds_of_conns hcn⟩
   refine invCore_user_update h hu hown hchs ?_
     (by rw [husers]; exact Map.modify_congr_of_lookup n f _ u hu) hp hc hcn hm hs
     (by rw [hi, hmodes]) (by rw [ho, hmodes]) ?_
@@ -446,4 +444,495 @@ theorem invCore_setConn_killedBy {w : World} (h : InvCore w) {cn : Conn} (hm : c
     · left; exact e5 a2
     · right; rw [e4]; exact a2
 
-end Irc
+/-! ### user MODE: the loop invariant -/
+
+structure UAccInv (w0 : World) (target : Str) (ui uo : Nat) (a : UModeAcc) : Prop where
+  panicked : a.x.w.panicked = w0.panicked
+  users : a.x.w.users = w0.users
+  channels : a.x.w.channels = w0.channels
+  conns : a.x.w.conns = w0.conns
+  maxUsers : a.x.w.maxUsers = w0.maxUsers
+  connsCount : a.x.w.connsCount = w0.connsCount
+  inv : a.x.w.invisibleCount + ui = w0.invisibleCount + a.modes.invisible.toNat
+  ops : a.x.w.operatorsCount + uo =
+    w0.operatorsCount + a.modes.isLocalOper.toNat
+  wl : ∀ k, KSet.mem k a.x.w.wallops = true ↔
+    (if k = target then a.modes.wallops = true else KSet.mem k w0.wallops = true)
+
+theorem umodeChar_inv {cfg : Cfg} {cn : Conn} {w0 : World} {target : Str} {ui uo : Nat} {a : UModeAcc}
+    (hbi : ui ≤ w0.invisibleCount)
+    (hbo : uo ≤ w0.operatorsCount)
+    (h : UAccInv w0 target ui uo a) (ch : Char) : UAccInv w0 target ui uo (umodeChar cfg cn target a ch) := by
+  obtain ⟨h1, h2, h3, h4, h5, h6, h7, h8, h9⟩ := h
+  unfold umodeChar
+  simp only
+  by_cases c1 : ch = '+'
+  · rw [if_pos c1]; exact ⟨h1, h2, h3, h4, h5, h6, h7, h8, h9⟩
+  rw [if_neg c1]
+  by_cases c2 : ch = '-'
+  · rw [if_pos c2]; exact ⟨h1, h2, h3, h4, h5, h6, h7, h8, h9⟩
+  rw [if_neg c2]
+  by_cases c3 : ch = 'i'
+  · rw [if_pos c3]
+    rcases Bool.eq_false_or_eq_true a.modeSet with hs | hs <;>
+    rcases Bool.eq_false_or_eq_true a.modes.invisible with hm | hm <;>
+    simp only [hs, hm, ↓reduceIte, Bool.not_true, Bool.not_false, Bool.false_eq_true]
+    · exact ⟨h1, h2, h3, h4, h5, h6, h7, h8, h9⟩
+    · refine ⟨h1, h2, h3, h4, h5, h6, ?_, h8, h9⟩
+      simp only [Ctx.modifyW_w, Bool.toNat_true, Bool.toNat_false, hm] at h7 ⊢
+      omega
+    · have hne : ¬ a.x.w.invisibleCount = 0 := by
+        simp only [hm, Bool.toNat_true] at h7; omega
+      refine ⟨?_, ?_, ?_, ?_, ?_, ?_, ?_, ?_, ?_⟩ <;> simp only [Ctx.modifyW_w, hne, ↓reduceIte]
+      · exact h1
+      · exact h2
+      · exact h3
+      · exact h4
+      · exact h5
+      · exact h6
+      · simp only [hm, Bool.toNat_true, Bool.toNat_false] at h7 ⊢; omega
+      · exact h8
+      · exact h9
+    · exact ⟨h1, h2, h3, h4, h5, h6, h7, h8, h9⟩
+  rw [if_neg c3]
+  by_cases c4 : ch = 'r'
+  · rw [if_pos c4]
+    repeat' split
+    all_goals exact ⟨h1, h2, h3, h4, h5, h6, h7, h8, h9⟩
+  rw [if_neg c4]
+  by_cases c5 : ch = 'w'
+  · rw [if_pos c5]
+    rcases Bool.eq_false_or_eq_true a.modeSet with hs | hs <;>
+    rcases Bool.eq_false_or_eq_true a.modes.wallops with hm | hm <;>
+    simp only [hs, hm, ↓reduceIte, Bool.not_true, Bool.not_false, Bool.false_eq_true]
+    · exact ⟨h1, h2, h3, h4, h5, h6, h7, h8, h9⟩
+    · refine ⟨h1, h2, h3, h4, h5, h6, h7, h8, ?_⟩
+      intro k
+      simp only [Ctx.modifyW_w, KSet.mem_insert]
+      have := h9 k
+      by_cases e : k = target
+      · simp [e]
+      · simp only [e, ↓reduceIte, decide_false, Bool.false_or] at this ⊢; exact this
+    · refine ⟨h1, h2, h3, h4, h5, h6, h7, h8, ?_⟩
+      intro k
+      simp only [Ctx.modifyW_w, KSet.mem_erase]
+      have := h9 k
+      by_cases e : k = target
+      · simp [e]
+      · simp only [e, ↓reduceIte, decide_false, Bool.not_false, Bool.true_and] at this ⊢; exact this
+    · exact ⟨h1, h2, h3, h4, h5, h6, h7, h8, h9⟩
+  rw [if_neg c5]
+  by_cases c6 : ch = 'o'
+  · rw [if_pos c6]
+    rcases Bool.eq_false_or_eq_true a.modeSet with hs | hs <;>
+    rcases Bool.eq_false_or_eq_true a.modes.oper with hm | hm <;>
+    rcases Bool.eq_false_or_eq_true a.modes.localOper with hlo | hlo <;>
+    simp only [hs, hm, hlo, ↓reduceIte, Bool.not_true, Bool.not_false, Bool.false_eq_true]
+    all_goals first
+      | exact ⟨h1, h2, h3, h4, h5, h6, h7, h8, h9⟩
+      | (refine ⟨h1, h2, h3, h4, h5, h6, h7, ?_, h9⟩
+         simp only [UserModes.isLocalOper, hm, hlo] at h8 ⊢; exact h8)
+      | (have hne : ¬ a.x.w.operatorsCount = 0 := by
+           simp only [UserModes.isLocalOper, hm, hlo, Bool.or_true, Bool.toNat_true] at h8; omega
+         refine ⟨?_, ?_, ?_, ?_, ?_, ?_, ?_, ?_, ?_⟩ <;> simp only [Ctx.modifyW_w, hne, ↓reduceIte]
+         · exact h1
+         · exact h2
+         · exact h3
+         · exact h4
+         · exact h5
+         · exact h6
+         · exact h7
+         · simp only [UserModes.isLocalOper, hm, hlo, Bool.or_true, Bool.or_false, Bool.toNat_true,
+             Bool.toNat_false] at h8 ⊢; omega
+         · exact h9)
+  rw [if_neg c6]
+  by_cases c7 : ch = 'O'
+  · rw [if_pos c7]
+    rcases Bool.eq_false_or_eq_true a.modeSet with hs | hs <;>
+    rcases Bool.eq_false_or_eq_true a.modes.oper with hm | hm <;>
+    rcases Bool.eq_false_or_eq_true a.modes.localOper with hlo | hlo <;>
+    simp only [hs, hm, hlo, ↓reduceIte, Bool.not_true, Bool.not_false, Bool.false_eq_true]
+    all_goals first
+      | exact ⟨h1, h2, h3, h4, h5, h6, h7, h8, h9⟩
+      | (refine ⟨h1, h2, h3, h4, h5, h6, h7, ?_, h9⟩
+         simp only [UserModes.isLocalOper, hm, hlo] at h8 ⊢; exact h8)
+      | (have hne : ¬ a.x.w.operatorsCount = 0 := by
+           simp only [UserModes.isLocalOper, hm, hlo, Bool.or_true, Bool.toNat_true] at h8; omega
+         refine ⟨?_, ?_, ?_, ?_, ?_, ?_, ?_, ?_, ?_⟩ <;> simp only [Ctx.modifyW_w, hne, ↓reduceIte]
+         · exact h1
+         · exact h2
+         · exact h3
+         · exact h4
+         · exact h5
+         · exact h6
+         · exact h7
+         · simp only [UserModes.isLocalOper, hm, hlo, Bool.or_true, Bool.or_false, Bool.toNat_true,
+             Bool.toNat_false] at h8 ⊢; omega
+         · exact h9)
+  rw [if_neg c7]
+  exact ⟨h1, h2, h3, h4, h5, h6, h7, h8, h9⟩
+
+/-! ### channel MODE: `Channel.setRank` keeps `RankMirror` -/
+
+theorem mirror_insert {s s' : KSet} {users : Map ChanUserModes} {nick : Str} {chum' : ChanUserModes}
+    (flag : ChanUserModes → Bool)
+    (hold : ∀ n, KSet.mem n s = true ↔ ∃ m, Map.lookup n users = some m ∧ flag m = true)
+    (hs : ∀ n, KSet.mem n s' = true ↔ if n = nick then flag chum' = true else KSet.mem n s = true) :
+    ∀ n, KSet.mem n s' = true ↔ ∃ m, Map.lookup n (Map.insert nick chum' users) = some m ∧ flag m = true := by
+  intro n
+  rw [hs n, Map.lookup_insert]
+  by_cases e : n = nick
+  · subst e; simp
+  · have e' : ¬ nick = n := fun h => e h.symm
+    simp only [e, e', ↓reduceIte]; exact hold n
+
+theorem mirror_same {s : KSet} {users : Map ChanUserModes} {nick : Str} {chum chum' : ChanUserModes}
+    (flag : ChanUserModes → Bool) (hl : Map.lookup nick users = some chum)
+    (hold : ∀ n, KSet.mem n s = true ↔ ∃ m, Map.lookup n users = some m ∧ flag m = true)
+    (hf : flag chum' = flag chum) :
+    ∀ n, KSet.mem n s = true ↔ ∃ m, Map.lookup n (Map.insert nick chum' users) = some m ∧ flag m = true := by
+  apply mirror_insert flag hold
+  intro n
+  by_cases e : n = nick
+  · subst e; simp only [↓reduceIte]; rw [hold n, hf]
+    constructor
+    · rintro ⟨m, h1, h2⟩; rw [hl] at h1; cases h1; exact h2
+    · intro h; exact ⟨chum, hl, h⟩
+  · simp [e]
+
+theorem mirror_upd {s : KSet} {users : Map ChanUserModes} {nick : Str} {chum' : ChanUserModes}
+    (flag : ChanUserModes → Bool) (on : Bool)
+    (hold : ∀ n, KSet.mem n s = true ↔ ∃ m, Map.lookup n users = some m ∧ flag m = true)
+    (hf : flag chum' = on) :
+    ∀ n, KSet.mem n (if on = true then KSet.insert nick s else KSet.erase nick s) = true ↔
+      ∃ m, Map.lookup n (Map.insert nick chum' users) = some m ∧ flag m = true := by
+  apply mirror_insert flag hold
+  intro n
+  cases on
+  · simp only [Bool.false_eq_true, ↓reduceIte, KSet.mem_erase, hf]
+    by_cases e : n = nick <;> simp [e]
+  · simp only [↓reduceIte, KSet.mem_insert, hf]
+    by_cases e : n = nick <;> simp [e]
+
+theorem setRank_spec {C : Channel} (hrm : RankMirror C) {nick : Str}
+    (hc : Map.contains nick C.users = true) (letter : Char) (on : Bool) :
+    ∃ C', C.setRank letter nick on = some C' ∧ RankMirror C' ∧
+      Map.keys C'.users = Map.keys C.users ∧ C'.preconfigured = C.preconfigured := by
+  obtain ⟨chum, hl⟩ := (Map.contains_iff _ _).mp hc
+  unfold Channel.setRank
+  simp only [hl]
+  refine ⟨_, rfl, ?_, Map.keys_insert_of_contains _ _ _ hc, rfl⟩
+  obtain ⟨r1, r2, r3, r4, r5⟩ := hrm
+  by_cases c1 : letter = 'o'
+  · simp only [c1, ↓reduceIte]
+    exact ⟨mirror_same (·.founder) hl r1 rfl, mirror_same (·.prot) hl r2 rfl,
+      mirror_upd (·.operator) on r3 rfl, mirror_same (·.halfOper) hl r4 rfl,
+      mirror_same (·.voice) hl r5 rfl⟩
+  simp only [c1, ↓reduceIte]
+  by_cases c2 : letter = 'h'
+  · simp only [c2, ↓reduceIte]
+    exact ⟨mirror_same (·.founder) hl r1 rfl, mirror_same (·.prot) hl r2 rfl,
+      mirror_same (·.operator) hl r3 rfl, mirror_upd (·.halfOper) on r4 rfl,
+      mirror_same (·.voice) hl r5 rfl⟩
+  simp only [c2, ↓reduceIte]
+  by_cases c3 : letter = 'v'
+  · simp only [c3, ↓reduceIte]
+    exact ⟨mirror_same (·.founder) hl r1 rfl, mirror_same (·.prot) hl r2 rfl,
+      mirror_same (·.operator) hl r3 rfl, mirror_same (·.halfOper) hl r4 rfl,
+      mirror_upd (·.voice) on r5 rfl⟩
+  simp only [c3, ↓reduceIte]
+  by_cases c4 : letter = 'q'
+  · simp only [c4, ↓reduceIte]
+    exact ⟨mirror_upd (·.founder) on r1 rfl, mirror_same (·.prot) hl r2 rfl,
+      mirror_same (·.operator) hl r3 rfl, mirror_same (·.halfOper) hl r4 rfl,
+      mirror_same (·.voice) hl r5 rfl⟩
+  simp only [c4, ↓reduceIte]
+  by_cases c5 : letter = 'a'
+  · simp only [c5, ↓reduceIte]
+    exact ⟨mirror_same (·.founder) hl r1 rfl, mirror_upd (·.prot) on r2 rfl,
+      mirror_same (·.operator) hl r3 rfl, mirror_same (·.halfOper) hl r4 rfl,
+      mirror_same (·.voice) hl r5 rfl⟩
+  simp only [c5, ↓reduceIte]
+  exact ⟨mirror_same (·.founder) hl r1 rfl, mirror_same (·.prot) hl r2 rfl,
+      mirror_same (·.operator) hl r3 rfl, mirror_same (·.halfOper) hl r4 rfl,
+      mirror_same (·.voice) hl r5 rfl⟩
+
+/-! ### channel MODE: the loop invariant and the validation/execution simulation -/
+
+structure CAccInv (w0 : World) (ch0 : Channel) (a : ModeAcc) : Prop where
+  w : a.x.w = w0
+  keys : Map.keys a.ch.users = Map.keys ch0.users
+  rm : RankMirror a.ch
+  pre : a.ch.preconfigured = ch0.preconfigured
+
+def ArgRel (halfOp : Bool) (eargs vargs : List Str) : Prop :=
+  if halfOp then eargs = vargs else vargs.length ≤ eargs.length
+
+def ModeInv (hop : Bool) (w0 : World) (ch0 : Channel) (t : Str) (p : Nat) (cs : Str) (a : ModeAcc) : Prop :=
+  ∃ vargs, chanModeChars t p a.modeSet vargs cs = .ok () ∧ ArgRel hop a.args vargs ∧ CAccInv w0 ch0 a
+
+theorem foldl_reply_w {β : Type} (cfg : Cfg) (g : β → Str) (l : List β) (x : Ctx) :
+    (l.foldl (fun x b => x.reply cfg (g b)) x).w = x.w := by
+  induction l generalizing x with
+  | nil => rfl
+  | cons b l ih => simp only [List.foldl_cons]; rw [ih]; rfl
+
+theorem ArgRel.drop1 {hop : Bool} {e : Str} {es vargs : List Str} (h : ArgRel hop (e :: es) vargs) :
+    ArgRel hop es vargs.tail := by
+  unfold ArgRel at *
+  cases hop
+  · simp only [Bool.false_eq_true, ↓reduceIte, List.length_cons, List.length_tail] at h ⊢; omega
+  · simp only [↓reduceIte] at h ⊢; subst h; rfl
+
+theorem ArgRel.nil_drop {hop : Bool} {vargs : List Str} (h : ArgRel hop [] vargs) :
+    ArgRel hop [] vargs.tail := by
+  unfold ArgRel at *
+  cases hop
+  · simp only [Bool.false_eq_true, ↓reduceIte, List.length_nil, List.length_tail] at h ⊢; omega
+  · simp only [↓reduceIte] at h ⊢; subst h; rfl
+
+theorem modeChar_step {cfg : Cfg} {cn : Conn} {target t : Str} {p : Nat} {chum : ChanUserModes}
+    {w0 : World} {ch0 : Channel} {a : ModeAcc} {ch : Char} {cs : Str}
+    (h : ModeInv chum.isHalfOperator w0 ch0 t p (ch :: cs) a) :
+    ModeInv chum.isHalfOperator w0 ch0 t p cs (modeChar cfg cn target chum a ch) := by
+  obtain ⟨vargs, hv, hrel, hI⟩ := h
+  unfold modeChar
+  extract_lets +onlyGivenNames client nick err482 preChecked a1
+  have e1 : a1.modeSet = a.modeSet := by simp only [a1]; split <;> rfl
+  have e2 : a1.args = a.args := by simp only [a1]; split <;> rfl
+  have e3 : a1.ch = a.ch := by simp only [a1]; split <;> rfl
+  have e4 : a1.x.w = a.x.w := by simp only [a1]; split <;> rfl
+  rw [← e1] at hv; rw [← e2] at hrel
+  have hI1 : CAccInv w0 ch0 a1 := ⟨by rw [e4]; exact hI.w, by rw [e3]; exact hI.keys, by rw [e3]; exact hI.rm, by rw [e3]; exact hI.pre⟩
+  clear_value a1
+  clear e1 e2 e3 e4 hI preChecked a
+  simp only []
+  by_cases c1 : ch = '+'
+  · rw [if_pos c1]; subst c1
+    simp [chanModeChars] at hv
+    exact ⟨vargs, hv, hrel, ⟨hI1.w, hI1.keys, hI1.rm, hI1.pre⟩⟩
+  rw [if_neg c1]
+  by_cases c2 : ch = '-'
+  · rw [if_pos c2]; subst c2
+    simp [chanModeChars] at hv
+    exact ⟨vargs, hv, hrel, ⟨hI1.w, hI1.keys, hI1.rm, hI1.pre⟩⟩
+  rw [if_neg c2]
+  by_cases c3 : ch = 'b'
+  · rw [if_pos c3]; subst c3
+    simp [chanModeChars] at hv
+    cases hargs : a1.args with
+    | nil =>
+      simp only
+      rw [hargs] at hrel
+      refine ⟨vargs.tail, hv, hrel.nil_drop, ⟨?_, hI1.keys, hI1.rm, hI1.pre⟩⟩
+      simp only [Ctx.reply_w, foldl_reply_w]; exact hI1.w
+    | cons e es =>
+      simp only
+      rw [hargs] at hrel
+      split
+      · split
+        · exact ⟨vargs.tail, hv, hrel.drop1, ⟨hI1.w, hI1.keys, ⟨hI1.rm.1, hI1.rm.2, hI1.rm.3, hI1.rm.4, hI1.rm.5⟩, hI1.pre⟩⟩
+        · exact ⟨vargs.tail, hv, hrel.drop1, ⟨hI1.w, hI1.keys, ⟨hI1.rm.1, hI1.rm.2, hI1.rm.3, hI1.rm.4, hI1.rm.5⟩, hI1.pre⟩⟩
+      · exact ⟨vargs.tail, hv, hrel.drop1, ⟨hI1.w, hI1.keys, hI1.rm, hI1.pre⟩⟩
+  rw [if_neg c3]
+  by_cases c4 : ch = 'e'
+  · rw [if_pos c4]; subst c4
+    simp [chanModeChars] at hv
+    cases hargs : a1.args with
+    | nil =>
+      simp only
+      rw [hargs] at hrel
+      refine ⟨vargs.tail, hv, hrel.nil_drop, ⟨?_, hI1.keys, hI1.rm, hI1.pre⟩⟩
+      simp only [Ctx.reply_w, foldl_reply_w]; exact hI1.w
+    | cons e es =>
+      simp only
+      rw [hargs] at hrel
+      split
+      · exact ⟨vargs.tail, hv, hrel.drop1, ⟨hI1.w, hI1.keys, ⟨hI1.rm.1, hI1.rm.2, hI1.rm.3, hI1.rm.4, hI1.rm.5⟩, hI1.pre⟩⟩
+      · exact ⟨vargs.tail, hv, hrel.drop1, ⟨hI1.w, hI1.keys, hI1.rm, hI1.pre⟩⟩
+  rw [if_neg c4]
+  by_cases c5 : ch = 'I'
+  · rw [if_pos c5]; subst c5
+    simp [chanModeChars] at hv
+    cases hargs : a1.args with
+    | nil =>
+      simp only
+      rw [hargs] at hrel
+      refine ⟨vargs.tail, hv, hrel.nil_drop, ⟨?_, hI1.keys, hI1.rm, hI1.pre⟩⟩
+      simp only [Ctx.reply_w, foldl_reply_w]; exact hI1.w
+    | cons e es =>
+      simp only
+      rw [hargs] at hrel
+      split
+      · exact ⟨vargs.tail, hv, hrel.drop1, ⟨hI1.w, hI1.keys, ⟨hI1.rm.1, hI1.rm.2, hI1.rm.3, hI1.rm.4, hI1.rm.5⟩, hI1.pre⟩⟩
+      · exact ⟨vargs.tail, hv, hrel.drop1, ⟨hI1.w, hI1.keys, hI1.rm, hI1.pre⟩⟩
+  rw [if_neg c5]
+  by_cases c6 : (decide (ch = 'o') || decide (ch = 'v') || decide (ch = 'h') || decide (ch = 'q') || decide (ch = 'a')) = true
+  · rw [if_pos c6]
+    have hv' : ∃ arg args', vargs = arg :: args' ∧ chanModeChars t p a1.modeSet args' cs = .ok () := by
+      simp only [Bool.or_eq_true, decide_eq_true_eq] at c6
+      rcases c6 with ((((e | e) | e) | e) | e) <;> subst e <;> (
+        cases vargs with
+        | nil => simp [chanModeChars] at hv
+        | cons arg args' =>
+          refine ⟨arg, args', rfl, ?_⟩
+          simp [chanModeChars] at hv
+          split at hv
+          · exact absurd hv (by simp)
+          · exact hv)
+    obtain ⟨varg, vargs', rfl, hv'⟩ := hv'
+    have hne : a1.args ≠ [] := by
+      intro e; rw [e] at hrel; unfold ArgRel at hrel
+      cases chum.isHalfOperator <;> simp at hrel
+    cases hargs : a1.args with
+    | nil => exact absurd hargs hne
+    | cons e es =>
+      simp only
+      rw [hargs] at hrel
+      have hrel' : ArgRel chum.isHalfOperator es vargs' := hrel.drop1
+      split
+      · split
+        · rename_i hc _
+          obtain ⟨C', hC', hrm', hk', hp'⟩ := setRank_spec hI1.rm hc ch a1.modeSet
+          rw [hC']
+          exact ⟨vargs', hv', hrel', ⟨hI1.w, by rw [← hI1.keys]; exact hk', hrm', by rw [← hI1.pre]; exact hp'⟩⟩
+        · exact ⟨vargs', hv', hrel', ⟨hI1.w, hI1.keys, hI1.rm, hI1.pre⟩⟩
+      · exact ⟨vargs', hv', hrel', ⟨hI1.w, hI1.keys, hI1.rm, hI1.pre⟩⟩
+  rw [if_neg c6]
+  by_cases c7 : ch = 'l'
+  · rw [if_pos c7]; subst c7
+    have hvl : (a1.modeSet = true ∧ ∃ arg args' n, vargs = arg :: args' ∧
+          parseUnsigned usizeMax arg = .ok n ∧ chanModeChars t p a1.modeSet args' cs = .ok ()) ∨
+        (a1.modeSet = false ∧ vargs = [] ∧ chanModeChars t p a1.modeSet [] cs = .ok ()) := by
+      rcases Bool.eq_false_or_eq_true a1.modeSet with hs | hs
+      · left
+        refine ⟨hs, ?_⟩
+        rw [hs] at hv ⊢
+        cases vargs with
+        | nil => simp [chanModeChars] at hv
+        | cons arg args' =>
+          simp [chanModeChars] at hv
+          cases hp : parseUnsigned usizeMax arg with
+          | error e => rw [hp] at hv; simp at hv
+          | ok n => rw [hp] at hv; exact ⟨arg, args', n, rfl, hp, hv⟩
+      · right
+        refine ⟨hs, ?_⟩
+        rw [hs] at hv ⊢
+        cases vargs with
+        | nil => simp [chanModeChars] at hv; exact ⟨rfl, hv⟩
+        | cons arg args' => simp [chanModeChars] at hv
+    clear hv
+    rcases Bool.eq_false_or_eq_true chum.isHalfOperator with hh | hh
+    · rw [hh] at hrel ⊢
+      simp only [ArgRel, ↓reduceIte] at hrel
+      simp only [↓reduceIte]
+      rcases hvl with ⟨hs, arg, args', n, rfl, hp, hv⟩ | ⟨hs, rfl, hv⟩
+      · simp only [hs, hrel, hp, ↓reduceIte]
+        exact ⟨args', by simpa [hs] using hv, by simp [ArgRel], ⟨hI1.w, hI1.keys, ⟨hI1.rm.1, hI1.rm.2, hI1.rm.3, hI1.rm.4, hI1.rm.5⟩, hI1.pre⟩⟩
+      · simp only [hs, Bool.false_eq_true, ↓reduceIte]
+        exact ⟨[], by simpa [hs] using hv, by simp [ArgRel, hrel], ⟨hI1.w, hI1.keys, ⟨hI1.rm.1, hI1.rm.2, hI1.rm.3, hI1.rm.4, hI1.rm.5⟩, hI1.pre⟩⟩
+    · rw [hh] at hrel ⊢
+      simp only [ArgRel, Bool.false_eq_true, ↓reduceIte] at hrel
+      simp only [Bool.false_eq_true, ↓reduceIte]
+      rcases hvl with ⟨hs, arg, args', n, rfl, hp, hv⟩ | ⟨hs, rfl, hv⟩
+      · exact ⟨args', hv, by simp only [ArgRel, Bool.false_eq_true, ↓reduceIte, List.length_cons] at hrel ⊢; omega, hI1⟩
+      · exact ⟨[], hv, by simp [ArgRel], hI1⟩
+  rw [if_neg c7]
+  by_cases c8 : ch = 'k'
+  · rw [if_pos c8]; subst c8
+    have hvl : (a1.modeSet = true ∧ ∃ arg args', vargs = arg :: args' ∧
+          chanModeChars t p a1.modeSet args' cs = .ok ()) ∨
+        (a1.modeSet = false ∧ vargs = [] ∧ chanModeChars t p a1.modeSet [] cs = .ok ()) := by
+      rcases Bool.eq_false_or_eq_true a1.modeSet with hs | hs
+      · left
+        refine ⟨hs, ?_⟩
+        rw [hs] at hv ⊢
+        cases vargs with
+        | nil => simp [chanModeChars] at hv
+        | cons arg args' =>
+          simp [chanModeChars] at hv
+          exact ⟨arg, args', rfl, hv⟩
+      · right
+        refine ⟨hs, ?_⟩
+        rw [hs] at hv ⊢
+        cases vargs with
+        | nil => simp [chanModeChars] at hv; exact ⟨rfl, hv⟩
+        | cons arg args' => simp [chanModeChars] at hv
+    clear hv
+    rcases Bool.eq_false_or_eq_true chum.isHalfOperator with hh | hh
+    · rw [hh] at hrel ⊢
+      simp only [ArgRel, ↓reduceIte] at hrel
+      simp only [↓reduceIte]
+      rcases hvl with ⟨hs, arg, args', rfl, hv⟩ | ⟨hs, rfl, hv⟩
+      · simp only [hs, hrel, ↓reduceIte]
+        exact ⟨args', by simpa [hs] using hv, by simp [ArgRel], ⟨hI1.w, hI1.keys, ⟨hI1.rm.1, hI1.rm.2, hI1.rm.3, hI1.rm.4, hI1.rm.5⟩, hI1.pre⟩⟩
+      · simp only [hs, Bool.false_eq_true, ↓reduceIte]
+        exact ⟨[], by simpa [hs] using hv, by simp [ArgRel, hrel], ⟨hI1.w, hI1.keys, ⟨hI1.rm.1, hI1.rm.2, hI1.rm.3, hI1.rm.4, hI1.rm.5⟩, hI1.pre⟩⟩
+    · rw [hh] at hrel ⊢
+      simp only [ArgRel, Bool.false_eq_true, ↓reduceIte] at hrel
+      simp only [Bool.false_eq_true, ↓reduceIte]
+      rcases hvl with ⟨hs, arg, args', rfl, hv⟩ | ⟨hs, rfl, hv⟩
+      · exact ⟨args', hv, by simp only [ArgRel, Bool.false_eq_true, ↓reduceIte, List.length_cons] at hrel ⊢; omega, hI1⟩
+      · exact ⟨[], hv, by simp [ArgRel], hI1⟩
+  rw [if_neg c8]
+  by_cases c9 : (decide (ch = 'i') || decide (ch = 'm') || decide (ch = 't') || decide (ch = 'n') || decide (ch = 's')) = true
+  · rw [if_pos c9]
+    have hv' : chanModeChars t p a1.modeSet vargs cs = .ok () := by
+      simp only [Bool.or_eq_true, decide_eq_true_eq] at c9
+      rcases c9 with ((((e | e) | e) | e) | e) <;> subst e <;> simp [chanModeChars] at hv <;> exact hv
+    split
+    · split
+      · refine ⟨vargs, hv', hrel, ⟨hI1.w, hI1.keys, ?_, hI1.pre⟩⟩
+        obtain ⟨r1, r2, r3, r4, r5⟩ := hI1.rm
+        repeat' split
+        all_goals exact ⟨r1, r2, r3, r4, r5⟩
+      · refine ⟨vargs, hv', hrel, ⟨hI1.w, hI1.keys, ?_, hI1.pre⟩⟩
+        obtain ⟨r1, r2, r3, r4, r5⟩ := hI1.rm
+        repeat' split
+        all_goals exact ⟨r1, r2, r3, r4, r5⟩
+    · exact ⟨vargs, hv', hrel, hI1⟩
+  rw [if_neg c9]
+  exfalso
+  simp only [Bool.or_eq_true, decide_eq_true_eq, not_or] at c6 c9
+  simp [chanModeChars, c1, c2, c3, c4, c5, c6, c7, c8, c9] at hv
+
+
+theorem modeChars_fold {cfg : Cfg} {cn : Conn} {target t : Str} {p : Nat} {chum : ChanUserModes}
+    {w0 : World} {ch0 : Channel} (cs : Str) {a : ModeAcc}
+    (h : ModeInv chum.isHalfOperator w0 ch0 t p cs a) :
+    CAccInv w0 ch0 (cs.foldl (modeChar cfg cn target chum) a) := by
+  induction cs generalizing a with
+  | nil => exact h.choose_spec.2.2
+  | cons ch cs ih => simp only [List.foldl_cons]; exact ih (modeChar_step h)
+
+/-- one `(modechars, args)` group that passed validation keeps the loop invariant (in particular:
+    none of the argument-related panic sites of `modeChar` is reached) -/
+theorem modeGroup_inv {cfg : Cfg} {cn : Conn} {target t : Str} {p : Nat} {chum : ChanUserModes}
+    {w0 : World} {ch0 : Channel} {a : ModeAcc} {g : Str × List Str}
+    (hv : chanModeChars t p false g.2 g.1 = .ok ()) (h : CAccInv w0 ch0 a) :
+    CAccInv w0 ch0 (modeGroup cfg cn target chum a g) := by
+  unfold modeGroup
+  apply modeChars_fold (t := t) (p := p)
+  refine ⟨g.2, hv, ?_, ⟨h.w, h.keys, h.rm, h.pre⟩⟩
+  unfold ArgRel; split
+  · rfl
+  · exact Nat.le_refl _
+
+theorem modeGroups_inv {cfg : Cfg} {cn : Conn} {target t : Str} {chum : ChanUserModes}
+    {w0 : World} {ch0 : Channel} (modes : List (Str × List Str)) {p : Nat} {a : ModeAcc}
+    (hv : validateChannelmodesFrom t p modes = .ok ()) (h : CAccInv w0 ch0 a) :
+    CAccInv w0 ch0 (modes.foldl (modeGroup cfg cn target chum) a) := by
+  induction modes generalizing p a with
+  | nil => exact h
+  | cons g gs ih =>
+    obtain ⟨ms, margs⟩ := g
+    simp only [List.foldl_cons]
+    unfold validateChannelmodesFrom at hv
+    split at hv
+    · split at hv
+      · exact absurd hv (by simp)
+      · rename_i hg
+        exact ih hv (modeGroup_inv (g := (ms, margs)) hg h)
+    · exact absurd hv (by simp)
+
+end Irc.Modes
